@@ -787,11 +787,22 @@ def case_strategy(draw, tier="quick"):
     for i in range(0, len(punch), 6):
         F.append(" %d PUNCH %s" % (10 * (i // 6 + 1), ", ".join(punch[i:i + 6])))
     F.append(" -end")
+    # the same follow-up with the solution amounts scaled by 1 +- 3e-13 through a MIX written in the input language
+    # (not through the dump): used by the oracle to measure the conditioning of the follow-up on the *original* state
+    if mix_alive:
+        pmix = "\n".join(" %d %s" % (a, fmt(f * (1.0 + (3e-13 if i % 2 == 0 else -3e-13)))) for i, (a, f) in enumerate(parts))
+    else:
+        pmix = " %d %s" % (c, fmt(1.0 + 3e-13))
+    FP = None
     if ftype == "cells" and (has_solution or mix_alive):
+        FP = ["MIX %d\n%s" % (c, pmix), "USE mix none", "USE solution none", "END"] + list(F)
         F.append("RUN_CELLS\n -cells %d\n -start_time 0\n -time_step %s" % (c, fmt(draw(cg.logu(10.0, 1e5, 2)))))
+        FP.append(F[-1])
         labels.append("follow=run_cells")
     else:
+        FP = list(F) + ["MIX 98\n%s" % pmix, "USE mix 98"]
         F.append("USE %s %d" % ("mix" if mix_alive else "solution", c))
+        n0 = len(F)
         for k in present:
             F.append("USE %s %d" % (KEYWORD[k], c))
         if "temperature" in want:
@@ -804,6 +815,8 @@ def case_strategy(draw, tier="quick"):
             labels.append("follow=use+new_reaction")
         else:
             labels.append("follow=use")
+        FP += F[n0:]
     F.append("END")
-    return {"db": P["db"], "adds": adds_text(prof), "sims": sims, "follow": "\n".join(F) + "\n", "cols": cols,
-            "redox": redox, "labels": labels}
+    FP.append("END")
+    return {"db": P["db"], "adds": adds_text(prof), "sims": sims, "follow": "\n".join(F) + "\n",
+            "follow_p": "\n".join(FP) + "\n", "cols": cols, "redox": redox, "labels": labels}
